@@ -215,6 +215,7 @@ func execC02(sc c02Scenario) (res pbt.Result) {
 		}
 		wireA()
 		silencer := silence.NewSilencer(A, nopLog, eventrecorder.NopRecorder())
+		persistent := marker.NewAlertMarker()
 		var ids []string // creation order (on either side)
 		last := map[string]bool{}
 		ctx := context.Background()
@@ -345,7 +346,12 @@ func execC02(sc c02Scenario) (res pbt.Result) {
 					sort.Strings(want)
 					lset := toLabelSet(ls)
 					for pass := 0; pass < 2; pass++ { // cold/warm cache must agree
+						// first with a fresh marker (an API status query), then with the long-lived one (an aggregation
+						// group's marker, which remembers what the previous evaluation recorded)
 						m := marker.NewAlertMarker()
+						if pass == 1 {
+							m = persistent
+						}
 						got := silencer.Mutes(marker.WithContext(ctx, m), lset)
 						by := append([]string(nil), m.Status(lset.Fingerprint()).SilencedBy...)
 						sort.Strings(by)
